@@ -141,13 +141,24 @@ def make_recording(root, rec):
 # --------------------------------------------------------------------------
 # the implementation
 # --------------------------------------------------------------------------
-def impl_convert(ap, W, extra, nshank=None, default_window=False):
+REC_KEYS = ("kind", "ns", "content", "shankmap", "fs", "seed", "sync_off", "sync_mul", "nshank",
+            "reuse", "nsamples", "offset", "strpath", "floatw", "compress")
+
+
+def rec_n(rec):
+    """samples the window generator runs over: init_params(nsamples) or the whole file"""
+    return rec.get("nsamples") or rec["ns"]
+
+
+def impl_convert(ap, W, extra, rec, state):
     """Runs the real NP2Converter on `ap` with window W.  Returns per-output-file observations read
-    back from the bytes and metadata of *.lf.bin, or {'error': ...}."""
+    back from the bytes and metadata of the lf files, or {'error': ...}.  With rec['reuse'] the same
+    converter object (state['conv']) is used for every window size of the group:
+    process() -> init_params(...) -> process() ..."""
     import spikeglx
     from neuropixel import NP2Converter
     out = {"files": []}
-    conv = None
+    conv = state.get("conv") if rec.get("reuse") else None
     try:
         m = spikeglx.read_meta_data(Path(ap).with_suffix(".meta"))
         out["ap_meta"] = {"acq": [int(v) for v in m["acqApLfSy"]], "sns": [int(v) for v in m["snsApLfSy"]],
@@ -158,14 +169,21 @@ def impl_convert(ap, W, extra, nshank=None, default_window=False):
         cm = spikeglx._map_channels_from_meta(m)
         out["shanks"] = [int(s) for s in cm["shank"]]
         out["version"] = {"NP2.1": 21, "NP2.4": 24}.get(spikeglx._get_neuropixel_version_from_meta(m), 0)
-        conv = NP2Converter(ap, post_check=False, compress=False)
-        conv.init_params(nwindow=W if not default_window else None, extra=extra, nshank=nshank)
-        status = conv.process(overwrite=True)
+        if conv is None:
+            conv = NP2Converter(str(ap) if rec.get("strpath") else ap, post_check=False,
+                                compress=bool(rec.get("compress")))
+            if rec.get("reuse"):
+                state["conv"] = conv
+        nwindow = None if W == 60000 else (float(W) if rec.get("floatw") else W)
+        conv.init_params(nsamples=rec.get("nsamples"), nwindow=nwindow, extra=extra, nshank=rec["nshank"])
+        if rec.get("offset") is not None:
+            status = conv._process_NP21(overwrite=True, offset=rec["offset"])
+        else:
+            status = conv.process(overwrite=True)
         out["status"] = int(status)
         for sh, info in conv.shank_info.items():
             f = Path(info["lf_file"])
-            fo = {"sh": int(sh[5:]), "chns": [int(c) for c in info["chns"]], "path": str(f),
-                  "nbytes": f.stat().st_size}
+            fo = {"sh": int(sh[5:]), "chns": [int(c) for c in info["chns"]], "path": str(f)}
             md = spikeglx.read_meta_data(f.with_suffix(".meta"))
             fo["meta"] = {"acq": [int(v) for v in md["acqApLfSy"]], "sns": [int(v) for v in md["snsApLfSy"]],
                           "nsaved": int(md["nSavedChans"]), "fsize": int(md["fileSizeBytes"]),
@@ -173,20 +191,24 @@ def impl_convert(ap, W, extra, nshank=None, default_window=False):
                           "subset_hi": int(str(md["snsSaveChanSubset"]).split(":")[-1]),
                           "subset_orig": decode_subset(md.get("snsSaveChanSubset_orig")),
                           "original_meta": md.get("original_meta"),
-                          "shank_key": md.get("%s_shank" % conv.np_version, -1)}
+                          "shank_key": md.get("%s_shank" % conv.np_version, -1),
+                          "fileTimeSecs": float(md["fileTimeSecs"])}
             sr = spikeglx.Reader(f, sort=False)
             try:
                 fo["reader"] = {"nc": int(sr.nc), "fs": sr.fs, "type": sr.type, "nsync": int(sr.nsync),
                                 "ns": int(sr.ns), "shape": [int(v) for v in sr.shape],
-                                "raw_shape": [int(v) for v in sr._raw.shape]}
-                fo["raw"] = np.array(sr._raw)
+                                "raw_shape": [int(v) for v in sr._raw.shape],
+                                "fudged": float(sr.meta["fileTimeSecs"]) != fo["meta"]["fileTimeSecs"]}
+                fo["raw"] = np.array(sr._raw[:, :])
             finally:
                 sr.close()
+            # bytes of the flat binary (a .lf.cbin holds the same int16 array compressed)
+            fo["nbytes"] = f.stat().st_size if f.suffix == ".bin" else int(fo["raw"].size * 2)
             out["files"].append(fo)
     except Exception as e:      # noqa
         out["error"] = "%s: %s" % (type(e).__name__, str(e)[:200])
     finally:
-        if conv is not None:
+        if conv is not None and not rec.get("reuse"):
             try:
                 conv.sr.close()
             except Exception:
@@ -218,16 +240,20 @@ SOS = scipy.signal.butter(N=2, Wn=1000 / 2500 / 2, btype="lowpass", output="sos"
 
 
 def reference(dat):
-    """zero-phase low-pass of the whole AP trace then every 12th sample, float64, in LSB."""
+    """zero-phase low-pass of the whole AP trace (every sample), float64, in LSB."""
     x = dat[:, :384].astype(np.float64)
     if x.shape[0] <= 9:          # shorter than sosfiltfilt's padding: no reference (and no interior)
-        return np.zeros((cdiv(x.shape[0], RATIO), 384))
-    return scipy.signal.sosfiltfilt(SOS, x, axis=0)[::RATIO]
+        return np.zeros((x.shape[0], 384))
+    return scipy.signal.sosfiltfilt(SOS, x, axis=0)
 
 
-def oracle_file(rec, W, dat, ref, fo, meas):
-    """Property clauses on one output file; returns list of (clause, message)."""
-    ns = rec["ns"]
+def oracle_file(rec, W, dat, ref_full, fo, meas):
+    """Property clauses on one output file; returns list of (clause, message).  The stream is derived
+    from the AP samples [off, off + ns): the whole file unless nsamples / offset were given."""
+    ns = rec_n(rec)
+    off = rec.get("offset") or 0
+    dat = dat[off:off + ns]
+    ref = ref_full[off:off + ns:RATIO]
     bad = []
     nrows_expected = cdiv(ns, RATIO)
     chns = fo["chns"]
@@ -296,7 +322,7 @@ def decode_positions(rec, col):
     r = ((w - off) * inv) % 65536            # AP position modulo 2^16, exact
     # recordings longer than 2^16 samples: the lap is taken nearest to 12*m (the residue mod 2^16 stays exact;
     # an error of a whole multiple of 65536 samples would show in the value comparison instead)
-    exp = RATIO * np.arange(r.size, dtype=np.int64)
+    exp = (rec.get("offset") or 0) + RATIO * np.arange(r.size, dtype=np.int64)
     r = r + 65536 * np.round((exp - r) / 65536.0).astype(np.int64)
     return [int(v) for v in r]
 
@@ -308,7 +334,7 @@ def meta_ns_of(ap_meta):
 
 def enc_input(rec, W, obs, shs):
     am = obs["ap_meta"]
-    return [rec["ns"], W, obs["version"], meta_ns_of(am)] + am["acq"] + am["sns"] + \
+    return [rec["ns"], rec_n(rec), rec.get("offset") or 0, W, obs["version"], meta_ns_of(am)] + am["acq"] + am["sns"] + \
         [am["nsaved"], am["fsize"], am["rate"], am["subset_hi"], len(shs)] + shs + obs["shanks"]
 
 
@@ -329,7 +355,7 @@ def enc_output(rec, obs):
         out += [len(md["subset_orig"])] + md["subset_orig"]
         out += [0 if str(md["original_meta"]) == "False" else 1, int(md["shank_key"])]
         out += [fo["nbytes"], rd["nc"], int(rd["fs"]) if float(rd["fs"]) == int(rd["fs"]) else -1,
-                1 if rd["type"] == "lf" else 0, rd["nsync"], rd["ns"]]
+                1 if rd["type"] == "lf" else 0, rd["nsync"], rd["ns"], 1 if rd["fudged"] else 0]
     return out
 
 
@@ -343,15 +369,18 @@ def gen_recordings(ctx):
     rng = ctx.rng
     recs = []
 
-    def rec(kind, ns, content, shankmap="fixture", fs="30000", windows=None, nshank=None):
+    def rec(kind, ns, content, shankmap="fixture", fs="30000", windows=None, nshank=None, **opt):
         mul = rng.randrange(1, 65536, 2)
         r = {"kind": kind, "ns": ns, "content": content, "shankmap": shankmap, "fs": fs,
              "seed": rng.randrange(2 ** 31), "sync_off": rng.randrange(65536), "sync_mul": mul,
-             "windows": windows, "nshank": nshank}
+             "windows": windows, "nshank": nshank,
+             "reuse": False, "nsamples": None, "offset": None, "strpath": False, "floatw": False, "compress": False}
+        r.update(opt)
         recs.append(r)
 
     contents = ["walk", "noise", "impulses", "steps", "tones"]
-    # (a) full-size groups: three window sizes each, lengths not multiples of 12 or of the window
+    # (a) full-size groups: three window sizes each, lengths not multiples of 12 or of the window; every other
+    #     group runs its three conversions on ONE converter object (process -> init_params -> process ...)
     big = [("NP24", "fixture"), ("NP21", "fixture"), ("NP24", "uneven"), ("NP24", "scattered"),
            ("NP21", "fixture"), ("NP24", "tiny")]
     nbig = 24 if ctx.thorough() else 7
@@ -361,11 +390,14 @@ def gen_recordings(ctx):
         if ns % 12 == 0:
             ns += rng.randrange(1, 12)
         ws = rng.sample(WINDOWS[:-1], 3) if i % 3 else [rng.choice([588, 600, 612]), rng.choice([1200, 1812]), 60000]
-        ws = [w for w in ws]
         fs = "30000" if i % 2 == 0 else "29999.757983"
-        rec(kind, ns, contents[i % len(contents)], smap, fs, ws)
+        rec(kind, ns, contents[i % len(contents)], smap, fs, ws, reuse=(i % 2 == 1) or i == 0,
+            strpath=(i % 3 == 1), floatw=(i % 4 == 2))
     # (a') the default window (2 s) with a recording long enough for several windows
     rec("NP21", (190000 if ctx.thorough() else 61000) + rng.randrange(1, 12), "walk", "fixture", "29999.757983", [60000])
+    # (a'') compress=True: the stream ends up in .lf.cbin (read back through spikeglx / mtscomp)
+    rec("NP21", rng.randrange(1500, 2500), "tones", "fixture", "30000", [1200], compress=True)
+    rec("NP24", rng.randrange(1500, 2500), "walk", "uneven", "29999.757983", [612], compress=True)
     # (b) boundary lengths (small, cheap): around every constant of the code and the window seams
     bl = set()
     for w in (588, 600, 1200):
@@ -379,14 +411,32 @@ def gen_recordings(ctx):
     if not ctx.thorough():
         keep = [b for b in bl if b[0] in (1, 143, 144, 145, 287, 288, 289, 576, 577, 588, 589)]
         rest = [b for b in bl if b not in keep]
-        bl = keep + rng.sample(rest, 60)
+        bl = keep + rng.sample(rest, 50)
     bynsmall = {}
     for ns, w in bl:
         bynsmall.setdefault(ns, []).append(w)
     for i, (ns, ws) in enumerate(sorted(bynsmall.items())):
         kind = "NP21" if i % 3 else "NP24"
         rec(kind, ns, contents[i % len(contents)], "fixture", "30000" if i % 2 else "29999.757983", sorted(set(ws)),
-            nshank=None if kind == "NP21" or i % 2 else [rng.randrange(4)])
+            nshank=None if kind == "NP21" or i % 2 else [rng.randrange(4)], reuse=(i % 4 == 3))
+    # (b') every residue of ns modulo 12 with floor(ns/12) of both parities, several windows and a single one
+    for r in range(12):
+        for par in (0, 1):
+            q = 2 * rng.randrange(30, 60) + par
+            rec("NP21" if (r + par) % 2 else "NP24", 12 * q + r, contents[(r + par) % len(contents)], "fixture",
+                "30000" if r % 2 else "29999.757983", [588, 6000],
+                nshank=None if (r + par) % 2 else [rng.randrange(4)], reuse=bool(par))
+    # (b'') init_params(nsamples=n) and _process_NP21(offset=o): the stream is derived from AP samples [o, o+n)
+    for i in range(8 if ctx.thorough() else 4):
+        nsf = rng.randrange(2600, 4000)
+        n = rng.randrange(1300, 2400)
+        o = [0, 12, rng.randrange(1, 200), nsf - n][i % 4]
+        rec("NP21", nsf, contents[i % len(contents)], "fixture", "30000", [rng.choice([588, 600]), 1200],
+            nsamples=n, offset=o, reuse=(i % 2 == 1))
+    rec("NP24", rng.randrange(2600, 4000), "noise", "fixture", "30000", [600, 1812], nsamples=rng.randrange(1300, 2400))
+    #      outside the domain (offset + n beyond the file: NumPy clips the last reads): model agreement only
+    rec("NP21", 2000, "walk", "fixture", "30000", [600, 1200], nsamples=2000, offset=100)
+    rec("NP21", 1500, "walk", "fixture", "30000", [588], nsamples=1500, offset=1400)
     # (c) inadmissible window sizes (assert in init_params)
     for w in (590, 1201, 1199, 2405):
         rec("NP21", rng.randrange(700, 1500), "walk", "fixture", "30000", [w])
@@ -399,25 +449,33 @@ def gen_recordings(ctx):
 def run_group(ctx, rec, tmp, cases, meas, dist):
     logging.disable(logging.CRITICAL)
     root = Path(tmp) / ("g%d" % len(cases))
+    state = {}
     try:
         ap, dat = make_recording(root, rec)
         ref = reference(dat)
-        ns = rec["ns"]
+        nsf, n, off = rec["ns"], rec_n(rec), rec.get("offset") or 0
+        in_domain = off + n <= nsf
         outs = []
         for iw, W in enumerate(rec["windows"]):
-            desc = {k: rec[k] for k in ("kind", "ns", "content", "shankmap", "fs", "seed", "sync_off", "sync_mul", "nshank")}
+            desc = {k: rec.get(k) for k in REC_KEYS}
             desc["W"] = W
-            obs = impl_convert(ap, W, "_w%d" % iw, rec["nshank"], default_window=(W == 60000))
+            desc["run_index"] = iw if rec.get("reuse") else 0
+            if rec.get("reuse"):
+                desc["windows_before"] = rec["windows"][:iw]
+            obs = impl_convert(ap, W, "_w%d" % iw, rec, state)
             admissible = W % RATIO == 0 and W > OVERLAP
             dist["conversions"] += 1
             dist[rec["kind"]] += 1
+            dist["reused_converter_runs"] += 1 if (rec.get("reuse") and iw > 0) else 0
             if "error" in obs:
                 dist["raised"] += 1
                 if not admissible:
                     dist["inadmissible_window"] += 1
                     if not obs["error"].startswith("AssertionError"):
                         ctx.disagree("inadmissible window: expected the AssertionError of init_params, got " + obs["error"], desc)
-                elif ns < TAPER:
+                elif not in_domain:
+                    pass
+                elif n < TAPER:
                     ctx.fail("conversion raises on a recording shorter than the %d-sample taper (%s): no LFP stream "
                              "is produced" % (TAPER, obs["error"][:80]), desc, {"kind": "short_recording_raises"})
                 else:
@@ -427,17 +485,20 @@ def run_group(ctx, rec, tmp, cases, meas, dist):
             else:
                 if not admissible:
                     ctx.disagree("inadmissible window accepted", desc)
-                bad = []
-                for fo in obs["files"]:
-                    b = oracle_file(rec, W, dat, ref, fo, meas)
-                    bad += [(c, "shank %d: %s" % (fo["sh"], msg)) for c, msg in b]
-                for clause, msg in bad[:3]:
-                    ctx.fail(msg, desc, {"kind": clause})
-                outs.append((W, obs))
+                if in_domain:
+                    bad = []
+                    for fo in obs["files"]:
+                        b = oracle_file(rec, W, dat, ref, fo, meas)
+                        bad += [(c, "shank %d: %s" % (fo["sh"], msg)) for c, msg in b]
+                    for clause, msg in bad[:3]:
+                        ctx.fail(msg, desc, {"kind": clause})
+                    outs.append((W, obs))
+                else:
+                    dist["clipped_out_of_domain"] += 1
             shs = [fo["sh"] for fo in obs.get("files", [])] if "error" not in obs else []
             cases.append({"desc": desc, "inp": enc_input(rec, W, obs, [int(s) for s in shs]),
                           "out": enc_output(rec, obs),
-                          "nwin": max(cdiv(ns - W, W - OVERLAP), 0) + 1 if admissible else 0})
+                          "nwin": max(cdiv(n - W, W - OVERLAP), 0) + 1 if admissible else 0})
         # window-size independence (to 1 LSB), over the whole file
         for (Wa, oa), (Wb, ob) in zip(outs, outs[1:]):
             for fa, fb in zip(oa["files"], ob["files"]):
@@ -453,20 +514,30 @@ def run_group(ctx, rec, tmp, cases, meas, dist):
                 meas["window_dependence_samples_compared"] = meas.get("window_dependence_samples_compared", 0) + int(d.size)
                 if mx > LSB_BOUND:
                     r, c = np.unravel_index(int(np.argmax(d)), d.shape)
-                    desc = {k: rec[k] for k in ("kind", "ns", "content", "shankmap", "fs", "seed", "sync_off", "sync_mul", "nshank")}
+                    desc = {k: rec.get(k) for k in REC_KEYS}
                     desc["W"] = Wa
                     desc["W_other"] = Wb
                     ctx.fail("LF sample %d column %d differs by %d LSB between window sizes %d and %d"
                              % (r, c, mx, Wa, Wb), desc, {"kind": "window_dependence"})
     finally:
+        conv = state.get("conv")
+        if conv is not None:
+            try:
+                conv.sr.close()
+            except Exception:
+                pass
         shutil.rmtree(root, ignore_errors=True)
+
+
+NEW_DIST = {"conversions": 0, "NP21": 0, "NP24": 0, "raised": 0, "inadmissible_window": 0,
+            "reused_converter_runs": 0, "clipped_out_of_domain": 0}
 
 
 def run(ctx):
     common.proof_obligations(ctx, whitelist=FLOCQ_AXIOMS)
     recs = gen_recordings(ctx)
     cases, meas = [], {}
-    dist = {"conversions": 0, "NP21": 0, "NP24": 0, "raised": 0, "inadmissible_window": 0}
+    dist = dict(NEW_DIST)
     tmp = common.tmpdir("C12_run_")
     try:
         for rec in recs:
@@ -485,7 +556,7 @@ def run(ctx):
         meas["interior_definition"] = "LF rows m with %d <= 12 m < ns - %d" % (EDGE, EDGE)
         meas["edge_extent_rows_bound"] = EDGE // RATIO
     ctx.measurements.update(meas)
-    nontrivial = {(tuple(c["inp"][:3]), c["desc"]["seed"]) for c in cases if c["nwin"] > 1 and c["out"] != [0]}
+    nontrivial = {(tuple(c["inp"][:5]), c["desc"]["seed"]) for c in cases if c["nwin"] > 1 and c["out"] != [0]}
     dist["multi_window"] = sum(1 for c in cases if c["nwin"] > 1)
     dist["single_window"] = sum(1 for c in cases if c["nwin"] == 1)
     dist["ns_not_multiple_of_12"] = sum(1 for c in cases if c["desc"]["ns"] % 12)
@@ -494,6 +565,11 @@ def run(ctx):
     dist["window_sizes"] = sorted({c["desc"]["W"] for c in cases})
     dist["contents"] = sorted({c["desc"]["content"] for c in cases})
     dist["shankmaps"] = sorted({c["desc"]["shankmap"] for c in cases})
+    dist["ns_residues_mod_12"] = sorted({c["desc"]["ns"] % 12 for c in cases})
+    dist["with_nsamples_or_offset"] = sum(1 for c in cases if c["desc"]["nsamples"] or c["desc"]["offset"] is not None)
+    dist["compress_true"] = sum(1 for c in cases if c["desc"]["compress"])
+    dist["str_path"] = sum(1 for c in cases if c["desc"]["strpath"])
+    dist["float_window"] = sum(1 for c in cases if c["desc"]["floatw"])
     samples = [dict(c["desc"], nwin=c["nwin"], lf_rows=(c["out"][1] if len(c["out"]) > 1 else None))
                for c in cases[:: max(1, len(cases) // 6)]]
     return common.finish(
@@ -519,11 +595,11 @@ def replay(ctx, data):
     if not inp or "W" not in inp:
         print(json.dumps(data, indent=1)[:3000])
         return 1
-    rec = {k: inp[k] for k in ("kind", "ns", "content", "shankmap", "fs", "seed", "sync_off", "sync_mul", "nshank")}
-    rec["windows"] = [inp["W"]] + ([inp["W_other"]] if "W_other" in inp else [])
+    rec = {k: inp.get(k) for k in REC_KEYS}
+    rec["windows"] = list(inp.get("windows_before") or []) + [inp["W"]] + ([inp["W_other"]] if "W_other" in inp else [])
     sub = common.Ctx(PROP, ctx.tier, ctx.seed)
     cases, meas = [], {}
-    dist = {"conversions": 0, "NP21": 0, "NP24": 0, "raised": 0, "inadmissible_window": 0}
+    dist = dict(NEW_DIST)
     tmp = common.tmpdir("C12_replay_")
     try:
         run_group(sub, rec, tmp, cases, meas, dist)
